@@ -83,7 +83,7 @@ PART_METHODS = {"findDefault", "getAxis", "newGlyph", "newLayer", "getSourceDesc
 ELEM_METHODS = {"get", "values", "items", "pop", "popitem", "setdefault", "__getitem__", "copy", "union", "intersection",
                 "difference", "__iter__"}
 CONTAINER_CTORS = {"list", "tuple", "dict", "set", "frozenset", "sorted", "reversed", "OrderedDict", "iter", "next",
-                   "zip", "zip_strict", "enumerate", "chain", "zip_longest", "filter", "max", "min", "defaultdict", "cast"}
+                   "zip", "zip_strict", "enumerate", "chain", "zip_longest", "filter", "max", "min", "defaultdict", "cast", "ChainMap"}
 DEEP_COPIES = {"deepcopy"}
 SHALLOW_COPIES = {"copy"}
 # third-party functions that mutate an argument: name -> index of the mutated argument
